@@ -134,6 +134,8 @@ type KDC struct {
 	Expect     Expect
 	Issued     []Issued
 	Requests   []Request
+	// AdvertiseParams, when set, is sent as s2kparams in ETYPE-INFO2 for client keys that have none (des3, rc4)
+	AdvertiseParams []byte
 	// ErrorCRealm, when set, is sent as the crealm of every KRB-ERROR (a KDC_ERR_WRONG_REALM referral names the realm to go to there)
 	ErrorCRealm string
 	// ErrorEText, when set, is sent as the e-text of every KRB-ERROR (MIT KDCs send one, Active Directory usually does not)
@@ -390,7 +392,11 @@ func (k *KDC) handleAS(req *krbmsg.KDCReq) []byte {
 		return k.errReply(14, req, nil)
 	}
 	eti2 := func() []byte {
-		return krbmsg.EncodeETypeInfo2([]krbmsg.ETypeInfo2Entry{{EType: ck.Etype, Salt: ck.Salt, Params: ck.Params}})
+		par := ck.Params
+		if par == nil && k.AdvertiseParams != nil {
+			par = k.AdvertiseParams
+		}
+		return krbmsg.EncodeETypeInfo2([]krbmsg.ETypeInfo2Entry{{EType: ck.Etype, Salt: ck.Salt, Params: par}})
 	}
 	preauth := false
 	for _, pa := range req.PAData {
